@@ -612,3 +612,52 @@ def _find(reps, p, tol=1e-7):
         if abs(p[0] - q[0]) <= tol and abs(p[1] - q[1]) <= tol and abs(p[2] - q[2]) <= tol:
             return i
     return -1
+
+
+# --------------------------------------------------------------------------
+# object-graph reachability (does a returned object share sub-objects with the operands?)
+
+def reachable_ids(o, acc=None):
+    """ids of all library objects reachable from o through its public structure"""
+    if acc is None:
+        acc = set()
+    if o is None or id(o) in acc:
+        return acc
+    k = kind(o)
+    if k not in ("P", "VEC", "L", "PL", "S", "H", "PG", "PH", "PY"):
+        if isinstance(o, (list, tuple, set, frozenset)):
+            for x in o:
+                reachable_ids(x, acc)
+        return acc
+    acc.add(id(o))
+    try:
+        if k == "L":
+            subs = (o.sv, o.dv)
+        elif k == "PL":
+            subs = (o.p, o.n)
+        elif k == "S":
+            subs = (o.start_point, o.end_point, o.line)
+        elif k == "H":
+            subs = (o.point, o.vector, o.line)
+        elif k == "PG":
+            subs = tuple(o.points) + (o.plane, o.center_point)
+        elif k == "PH":
+            subs = tuple(o.convex_polygons) + tuple(o.point_set) + tuple(o.segment_set) + tuple(o.pyramid_set) + (o.center_point,)
+        elif k == "PY":
+            subs = (o.convex_polygon, o.point)
+        else:
+            subs = ()
+    except AttributeError:
+        subs = ()
+    for x in subs:
+        reachable_ids(x, acc)
+    return acc
+
+
+def shares_state(result, operands):
+    """True when `result` (or any part of it) is an object that is also part of one of the operands"""
+    mine = reachable_ids(result)
+    theirs = set()
+    for o in operands:
+        reachable_ids(o, theirs)
+    return bool(mine & theirs)
